@@ -75,6 +75,7 @@ def pause_value_rule(ctx):
 
 
 def run(ctx):
+    detector_walk_every_tick(ctx, "C05")
     # locals / parameters the rules below refer to by name (a rename makes the analysis 'broken', never a violation)
     ctx.anchor(ctx.fn1('Oomd::Engine::Ruleset::runOnceImpl'), 'run_actions')
     ctx.anchor(ctx.fn1('Oomd::BaseKillPlugin::run'))
@@ -91,6 +92,7 @@ def run(ctx):
             if impl.text(impl.nodes[i]["args"][0]) == "this"]
     ev = {i: [("set", "invoking_ruleset_set")] for i in sets}
     fl = Flow(P, impl, events=ev, cg=ctx.cg)
+    firing_here = firing_edge_in_impl(ctx)
     for i in rac:
         ctx.count("run_action_chain_calls")
         which = "begin" if "begin()" in impl.text(impl.nodes[i]["args"][0]) else "resume"
@@ -102,6 +104,8 @@ def run(ctx):
                   "run_action_chain(%s) is reachable without the strict pause gate "
                   "'steady_clock::now() < pause_actions_until_' being false" % which,
                   witness_path(impl, fl, i))
+        if which == "begin" and not firing_here:
+            continue        # the fresh chain's setInvokingRuleset sits on the firing edge, which is not in this function
         ctx.check(fl.must(i, "invoking_ruleset_set"),
                   "invoking-ruleset:runOnceImpl:" + which, "must_precede", impl.loc(i),
                   "setInvokingRuleset(this) precedes run_action_chain(%s) on every path" % which,
